@@ -7,7 +7,7 @@ the compiled instance.  TLC evaluates C04Equiv on each recorded pair (equal valu
 it builds, equal sizeof) and validates the interpreter side against Sem.  Design level: rendering faithfulness of inlined expressions is MC_C11.
 """
 import json
-from .. import ast as A, gen, values as V, campaign, universes as U
+from .. import ast as A, gen, values as V, campaign, universes as U, speccode
 from . import common
 
 LEVEL = "model_checking"
@@ -104,6 +104,34 @@ def run(ctx):
             camp.sh.maybe_flush()
             if i < 2:
                 ctx.sample({"program": prog})
+        # spec -> code: the sessions TLC explores on the model's universe, each call on the interpreter and on the compiled instance
+        uprogs, ukw, sessions, _ = speccode.explore(ctx, focus="all", part=speccode.part_of(ctx, 8 if quick else 16))
+        comps = {}
+        def on(camp, prog, con, s, idx):
+            key = s["pi"]
+            if key not in comps:
+                try:
+                    comps[key] = None if any(x in json.dumps(prog) for x in NOT_COMPILABLE) else con.compile()
+                except Exception:
+                    comps[key] = None
+            comp = comps[key]
+            if comp is None:
+                return
+            oprog = {"k": "Opaque", "desc": "compiled"}
+            for name in ("parse", "build", "reparse"):
+                if idx[name] is None:
+                    continue
+                c = camp.sh.cases[idx[name] - 1]
+                if c["op"] == "parse":
+                    i2, _ = camp.parse(oprog, comp, bytes(c["data"]), 0, ukw)
+                else:
+                    try:
+                        obj = V.dec(c["arg"])
+                    except Exception:
+                        continue
+                    i2, _ = camp.build(oprog, comp, obj, b"", ukw, arg=c["arg"])
+                camp.sh.session(CLAUSE, [idx[name], i2])
+        nt += speccode.drive(camp, uprogs, ukw, sessions, on)
         vs = camp.validate()
         campaign.judge(ctx, camp, vs, conformance=None, clauses=(CLAUSE,))
         ctx.cov["distinct_nontrivial"] = nt
